@@ -84,10 +84,13 @@ def dispatch_ml(eng, c, f, entry, j, raised):
         faces.syn(eng, c, f, j, "four-probes-dispatch-to-ml-closures", names == ["new_load", "new_loads", "new_load", "new_loads"],
                   "pickle.load/loads and _pickle.load/loads are the safe-ML closures")
     a = entry.env["a"]
+    from pyvc.sorts import V
     for k, e in enumerate(d):
-        cell = f.read("function.cell.also_allow", e[3], Val)
-        from pyvc.sorts import box
-        faces.ob(eng, c, f, j, f"closure-{k}-carries-this-activation's-additions", cell == box(eng.materialize(a, f)),
+        # the dispatched closure is the safe-ML closure of *this* activation: its environment (directly, or through the nested helper it
+        # calls — whichever the working tree's code does) holds exactly the additions passed to the activation
+        which = "is_ml_loads" if names[k] == "new_loads" else "is_ml_load"
+        holds = eng.spec_funcs[which](eng, f, V("ref", e[3], cls="function"), a).t
+        faces.ob(eng, c, f, j, f"closure-{k}-carries-this-activation's-additions", holds,
                  "the closure constructs unpicklers with exactly the additions of the current activation")
     faces.syn(eng, c, f, j, "no-raw-unpickle", not faces.events(f, "unpickle"), "no probe reaches the stock unpickler")
 
